@@ -261,6 +261,7 @@ class Report:
                 "floors": self.floors,
                 "analysed": self.analysed,
                 "known_findings_reported": self.known,
+                "selftest": getattr(self, "selftest", None),
                 "notes": self.notes,
                 "trusted_base": [
                     "rustc 1.97.0-nightly front end + MIR builder (facts are mir_built bodies)",
@@ -335,6 +336,13 @@ def main(argv):
         traceback.print_exc()
         rep.fail("engine", "exception", "rule engine raised an exception (fail closed): "
                  + traceback.format_exc().splitlines()[-1])
+    if a.tier == "thorough":
+        import selftest
+        try:
+            rep.selftest = selftest.run(a.pid, rep)
+        except Exception:
+            traceback.print_exc()
+            rep.selftest = {"error": traceback.format_exc().splitlines()[-1]}
     return rep.finish(prog, hashes)
 
 
